@@ -10,7 +10,9 @@ TRUSTED_BASE = c08.TRUSTED_BASE
 ASSUMPTIONS = ["'established' = between the server's Connect event for an address and its terminal event (or the drop call)"]
 RULE = ("servers with max_active 1..4 and max_total 1..8 against up to 8 clients whose handshakes overlap in every order (many SYNs before any ACK), connections ending by "
         "disconnect / drop / timeout in between and new ones arriving; oracle: number of established connections never exceeds max_active, number of addresses with a "
-        "live handshake or connection never exceeds max_total, a ServerFull refusal only when a limit is reached. Non-trivial: more clients than the limit tried to connect.")
+        "live handshake or connection never exceeds max_total, a ServerFull refusal only when a limit is reached; plus servers filled to max_active in which one connection is "
+        "on its way out (disconnect() with unsent data towards a silent peer, disconnect_now(), client-side disconnect, silence) while newcomers connect. "
+        "Non-trivial: more clients than the limit tried to connect.")
 
 def streams(rng, tier, ctx):
     n = 24 if tier == "quick" else 400
@@ -26,6 +28,40 @@ def streams(rng, tier, ctx):
             sim.limits = lim
             cid = "l%d" % i
             cases.append((cid, sim.ops)); meta[cid] = sim
+        # a slot is held until the terminal event: connections being flushed out (disconnect() with unsent /
+        # unacknowledged data towards a silent peer), closing, or timing out, while newcomers keep knocking
+        for i in range(n // 2):
+            r = rng.fork()
+            it.op("=== genh%d" % i)
+            k = r.pick([1, 1, 2, 3])
+            lim = (r.pick([k, k + 1, 8]), k)
+            sim = E.EpSim(r, inter=it)
+            sim.srv(lim[0], lim[1], 1, dict(E.DEFAULT_EP))
+            lat = r.pick([0, 5_000_000])
+            nets = {"c2s": E.Net(latency=lat), "s2c": E.Net(latency=lat)}
+            dt = r.pick([20_000_000, 50_000_000, 200_000_000])
+            for j in range(k):
+                sim.cli(j, dict(E.DEFAULT_EP), nets)
+            sim.run(r.range(6, 14), dt, nets)
+            victim = r.below(k)
+            how = r.pick(["sdisc", "sdisc", "sdisc", "cdisc", "sdiscnow", "silence"])
+            if r.chance(3, 4):
+                for _ in range(r.range(1, 4)):
+                    sim.send("s", victim, r.below(3), r.pick([3, 3, 2, 1]), r.pick([1000, 20_000, 60_000]))
+            if r.chance(2, 3):
+                nets[(victim, "c2s")] = E.Net(loss=1000); nets[(victim, "s2c")] = E.Net(loss=1000)
+            if how != "silence":
+                sim.call(how, victim)
+            newcomers = list(range(k, k + r.range(1, 3)))
+            def actions(sim, newcomers=newcomers, nets=nets):
+                for j in sorted(sim.clients):
+                    sim.op("sget %d" % j)             # RemoteClient::is_active(), sampled every tick
+                if newcomers and r.chance(1, 2):
+                    sim.cli(newcomers.pop(0), dict(E.DEFAULT_EP), nets)
+            sim.run(r.range(20, 80), dt, nets, actions)
+            sim.limits = lim
+            cid = "h%d" % i
+            cases.append((cid, sim.ops)); meta[cid] = sim
     finally:
         it.close()
     return [{"name": "limits", "mode": "ep", "cases": cases, "meta": meta, "case_timeout": 60}]
@@ -35,7 +71,10 @@ def oracle(stream, cid, ops, outs):
     sim = stream["meta"][cid]
     max_total, max_active = sim.limits
     sev, cev, log, delivered, calls = E.replay(ops, outs)
-    timeline = [(t, 1, tag, p) for (t, tag, p, _) in sev] + [(t, 0, "drop", p) for (t, w, p) in calls if w == "sdrop"]
+    # (a) event view: a connection is established from its Connect event until its terminal event, the drop call, or
+    #     the moment the server application asks for the disconnect (from then on it is closing, which only counts
+    #     towards max_total)
+    timeline = [(t, 1, tag, p) for (t, tag, p, _) in sev] + [(t, 0, "drop", p) for (t, w, p) in calls if w in ("sdrop", "sdisc", "sdiscnow")]
     timeline.sort(key=lambda x: (x[0], x[1]))
     est = set()
     for (t, _, tag, p) in timeline:
@@ -47,6 +86,18 @@ def oracle(stream, cid, ops, outs):
                 break
         elif tag in ("D", "E", "drop"):
             est.discard(p)
+    # (b) API view: the number of RemoteClients reporting is_active() at one instant
+    t = 0; active = {}
+    for op, o in zip(ops, outs):
+        w = op.split(" ")
+        if w[0] == "t":
+            t = int(w[1])
+            if sum(active.values()) > max_active and not fails:
+                fails.append({"oracle": "max_active_api", "detail": "%d RemoteClients report is_active() (peers %s) with max_active_connections = %d at t=%d ms" %
+                              (sum(active.values()), sorted(k for k, v in active.items() if v), max_active, t // 10**6), "signature": {"oracle": "max_active_api"}})
+            active = {}
+        elif w[0] == "sget" and o.startswith("active="):
+            active[int(w[1])] = int(o.split(" ")[0].split("=")[1])
     return fails
 
 def signature(ops, outs):
